@@ -4,6 +4,7 @@ import Pendulum.Proofs.FmtLocales
 import Pendulum.Props.C15
 import Pendulum.Proofs.GettersFmtGen
 import Pendulum.Proofs.GettersRef
+import Pendulum.Proofs.FormatterGenParse2
 /-! # C08 — format() renders every token correctly and from_format() inverts it
 
 Property theorems only. `Gen.Format.*` / `Gen.FormatLocales.*` / `Gen.py_*` are regenerated from
@@ -437,11 +438,11 @@ theorem hour24_with_meridiem (p : Parsed) (now : Now) (h : Int) (pm : Bool)
           · simp [e1, c2]
           · have e2 : orZero p.second = 0 := by omega
             simp [e1, e2, z3]
-    unfold checkParsed
+    unfold checkParsed checkQuarter checkDayOfYear checkDayOfWeek checkMeridiem checkFinal
     simp [h1, h2, h3, h4, hm, hh, hl, bind, Except.bind, pure, Except.pure, throw, throwThe, MonadExceptOf.throw]
   · intro hle
     have hl := meridiemTooLate_small h p.minute p.second p.microsecond hle
-    unfold checkParsed
+    unfold checkParsed checkQuarter checkDayOfYear checkDayOfWeek checkMeridiem checkFinal
     simp [h1, h2, h3, h4, hm, hh, hl, bind, Except.bind, pure, Except.pure]
 
 /-- … on concrete strings: `"13 PM"`, `"13 AM"` (and `"13:00 PM"`, `"14 PM"`) against `HH A` are `ValueError`s,
@@ -588,5 +589,173 @@ theorem to_string_dispatch_source {O : Type} (E : Gen.Getters.Ext O) (self : Gen
 example : GettersGen.helperReq GettersGen.refExt (GettersGen.refExt.view 0) ("to_rss_string", "named", "rss", "") =
     some (GettersGen.refExt.dt_format 0 "ddd, DD MMM YYYY HH:mm:ss ZZ" none) := by decide +kernel
 /-! ### ---- END section added by the `Gen/Getters` translator ---- -/
+/-! ## the control flow of `Formatter.format` / `Formatter.parse`, regenerated from formatter.py, equals the hand model
+
+`Gen.Formatter.*` is regenerated on every run by tools/gen_formatter.py from the *statements* of formatter.py (and of the
+wrappers in mixins/default.py / __init__.py); the theorems below prove it equal to the hand model for all inputs, under
+explicit hypotheses on what the code calls from outside (`FormatterGen.refOps re L find deflt now`: the locale object as the
+record `L`, `int()` as `intOf`, floats as `parseTimestamp`, `re.fullmatch` of the assembled pattern as the model's
+recognisers and matcher, DateTime arithmetic as the reference calendar; `re` = `_FORMAT_RE` applied to a format, with
+`FormatterGen.SegsOk re fmt`: its matches read as the model's token list).  An edit of the translated source changes the
+generated definition and breaks the proof (the build names the theorem), an edit outside the subset is a fallback. -/
+
+section source_eq_model
+open Pendulum.FormatterGen
+open Pendulum.Gen.Formatter (LocArg PDict VDict PatEl Segs)
+variable (re : Str → Segs) (L : Loc) (find : String → Option Loc) (deflt : String) (now : Now)
+
+/-- the two compiled regular expressions and the module-level `Formatter()` objects the parameters stand for -/
+theorem formatter_regex_pinned :
+    Gen.Formatter.FORMAT_RE_source = "re.compile(_TOKENS)" ∧
+    Gen.Formatter.FROM_FORMAT_RE_source = "re.compile('(?<!\\\\\\\\\\\\[)' + _TOKENS + '(?!\\\\\\\\\\\\])')" ∧
+    Gen.Formatter.formatter_objects = "Formatter() / Formatter()" := by decide
+
+/-- **`_format_token` / `_format_localizable_token`** (branch order, `Do`/`dddd`/`MMMM`/`A`/`e`/`eo`…, the `Z`/`ZZ` arithmetic):
+    a date-format token (`LT` … `LLLL`) recurses into `self.format` with the locale's (else the default) format string, any
+    other token is rendered as the model's `formatToken` does -/
+theorem format_token_source_eq_model (sf : DTF → Str → LocArg Loc → Except String Str) (l : Loc) (dt : DTF) (tok : String) :
+    Gen.Formatter.format_token sf (refOps re L find deflt now) dt tok l =
+      (if isDateFormat tok then sf dt (dateFormatOf l tok).toList (LocArg.obj l) else formatToken l dt tok) ∧
+    Gen.Formatter.format_localizable_token (refOps re L find deflt now) dt tok l = formatLocalizable l dt tok :=
+  ⟨format_token_tie sf re L l find deflt now dt tok, format_localizable_tie re L l find deflt now dt tok⟩
+
+/-- **`Formatter.format`** (the `_FORMAT_RE.sub` callback: `[...]` text, `\c`, tokens; recursion through the date formats, fuel
+    `n + 1` = `n` levels of expansion): the generated method equals `formatItems` on the expanded token list -/
+theorem format_source_eq_model (hre : ∀ f, SegsOk re f) (l : Loc) (la : LocArg Loc)
+    (hla : (refOps re L find deflt now).Locale_load (LocArg.or la (LocArg.name deflt)) = .ok l) (dt : DTF) (n : Nat) (fmt : Str) :
+    Gen.Formatter.format (refOps re L find deflt now) (n + 1) dt fmt la =
+      formatItems l dt (expandItems l n (tokenize fmt)) :=
+  format_tie_arg re hre L l find deflt now dt la hla n fmt
+
+/-- **`DateTime.format(fmt, locale=None)`** = the model's `format` in the locale the argument (else `pendulum.get_locale()`) names -/
+theorem datetime_format_source_eq_model (hre : ∀ f, SegsOk re f) (l : Loc) (v : Val) (locale : Option String)
+    (hl : find (Gen.Formatter.optStringOr locale deflt) = some l) (fmt : Str) :
+    Gen.Formatter.datetime_format (refOps re L find deflt now) 4 v.toDTF fmt locale = Fmt.format l v fmt :=
+  datetime_format_tie re hre L l find deflt now v locale hl fmt
+
+/-- **`_check_parsed`** (timestamp branch, quarter loop, day-of-year, day-of-week, the meridiem block with the repaired
+    `(h, mi or 0, s or 0, us or 0) >= (13, 0, 0, 0)` test, defaults from `now`, the returned dictionary): equal to
+    `checkParsed` for every state of `parsed` (a timestamp with its microseconds in range), every `now` and enough loop fuel -/
+theorem check_parsed_source_eq_model (fuel : Nat) (g : PDict (Int × Int) TzP) (hf : 40000 ≤ fuel)
+    (hnow : 1 ≤ now.year ∧ now.year ≤ 9999) (hts : ∀ f, g.timestamp = some f → 0 ≤ f.2 ∧ f.2 < 1000000) :
+    Gen.Formatter.check_parsed (refOps re L find deflt now) fuel g (DV.ofNow now) =
+      mapE ofResult (checkParsed (toParsed g) now) :=
+  check_parsed_tie re L find deflt now fuel g hf hnow hts
+
+/-- **`_get_parsed_value`**, every token: the `if/elif` chain (year pivot for `YY`, 12-hour check, fraction scaling through
+    `_PARSE_TOKENS`, `X`/`x`, offsets, `z` validation) equals `applyKind (classify tok)` -/
+theorem parsed_value_source_eq_model (g : PDict (Int × Int) TzP) (tok : String) (v : Str) :
+    mapE toParsed (Gen.Formatter.get_parsed_value (refOps re L find deflt now) tok v g (DV.ofNow now)) =
+      match Gen.Format.parseKind tok with
+      | none => .error "KeyError"
+      | some kind => applyKind (classify tok) kind v (toParsed g) :=
+  get_parsed_value_tie re L find deflt now g tok v
+
+/-- **`_get_parsed_locale_value`** (month / day names, `Do`, `A`/`a`) equals `applyLocalized`; an `a` value is lower-case
+    already, a `Do` value starts with a digit (what the groups of the pattern guarantee) -/
+theorem parsed_locale_value_source_eq_model (g : PDict (Int × Int) TzP) (tok : String) (v : Str)
+    (hlow : tok = "a" → (refOps re L find deflt now).str_lower v = v)
+    (hL : L.pm = L.am → L.pmLower = L.amLower) (hDo : tok = "Do" → (v.takeWhile Char.isDigit) ≠ []) :
+    mapE toParsed (Gen.Formatter.get_parsed_locale_value (refOps re L find deflt now) tok v g L) =
+      applyLocalized L tok v (toParsed g) :=
+  get_parsed_locale_value_tie re L find deflt now g tok v hlow hL hDo
+
+/-- **`_get_parsed_values`**: the loop over the groups and the dispatch on `_LOCALIZABLE_TOKENS` equal `applyGroups` -/
+theorem parsed_values_source_eq_model (hL : L.pm = L.am → L.pmLower = L.amLower) (m : List (String × Str))
+    (g : PDict (Int × Int) TzP) (hm : GroupsOk re L find deflt now m) :
+    mapE toParsed (Gen.Formatter.get_parsed_values (refOps re L find deflt now) m g L (DV.ofNow now)) =
+      applyGroups L m (toParsed g) :=
+  get_parsed_values_tie re L find deflt now hL m g hm
+
+/-- **`_replace_tokens`** (+ the lambdas of `_LOCALIZABLE_TOKENS`): for every alternative of `_TOKENS`, the exception the model's
+    `groupOf` has, else the named group with the alternatives the model's recogniser was written for -/
+theorem replace_tokens_source_eq_model (hL : L.pm = L.am → L.pmLower = L.amLower) (hN : NamesOk L) (tok : String)
+    (htok : tok ∈ Gen.Format.tokenAlts) :
+    ReplOk L tok (Gen.Formatter.replace_tokens (refOps re L find deflt now) tok L) :=
+  replace_tokens_tie re L find deflt now hL hN tok htok
+
+/-- **`Formatter.parse`** (the `findall` check, locale resolution, pattern assembly from `re.escape`d text and
+    `_replace_tokens`, `re.fullmatch` with its duplicate-group error, `_get_parsed_values`, `_check_parsed`) equals the model's
+    `parse`.  `hne`: the format has at least one match of `_FORMAT_RE` or is empty (for a format made of unmatched characters
+    only, the source raises `ValueError` where the model goes on — see the report); `MatchOk`: what the final match guarantees
+    about the `a`, `Do`, `X`, `x` values -/
+theorem parse_source_eq_model (fuel : Nat) (hf : 40000 ≤ fuel) (hnow : 1 ≤ now.year ∧ now.year ≤ 9999)
+    (hL : L.pm = L.am → L.pmLower = L.amLower) (hN : NamesOk L) (time fmt : Str) (locale : Option String)
+    (hloc : find (Gen.Formatter.optStringOr locale deflt) = some L)
+    (hseg : SegsOk re fmt) (hne : (re fmt).ms = [] → (re fmt).tail = [])
+    (hmatch : MatchOk re L find deflt now time (tokenize fmt)) :
+    Gen.Formatter.parse (refOps re L find deflt now) fuel time fmt (DV.ofNow now) locale =
+      mapE ofResult (Fmt.parse L time fmt now) :=
+  parse_tie re L find deflt now fuel hf hnow hL hN time fmt locale hloc hseg hne hmatch
+
+/-- **`pendulum.from_format(string, fmt, tz, locale)`** = `Formatter.parse` with `now = pendulum.now(tz)`, the `tz` argument
+    where the string carried no zone, then `pendulum.datetime(**parts)` -/
+theorem from_format_wrapper_source_eq_model (fuel : Nat) (hf : 40000 ≤ fuel) (hnow : 1 ≤ now.year ∧ now.year ≤ 9999)
+    (hL : L.pm = L.am → L.pmLower = L.amLower) (hN : NamesOk L) (string fmt : Str) (tz : TzP) (locale : Option String)
+    (hloc : find (Gen.Formatter.optStringOr locale deflt) = some L)
+    (hseg : SegsOk re fmt) (hne : (re fmt).ms = [] → (re fmt).tail = [])
+    (hmatch : MatchOk re L find deflt now string (tokenize fmt)) :
+    Gen.Formatter.from_format (refOps re L find deflt now) fuel string fmt tz locale =
+      fromFormatSpec L string fmt tz now :=
+  from_format_tie re L find deflt now fuel hf hnow hL hN string fmt tz locale hloc hseg hne hmatch
+
+end source_eq_model
+
+/-! the hypotheses of the tie theorems are satisfiable -/
+
+/-- `SegsOk` / `hne` hold for the segmentation read off the model's tokenizer, for every format -/
+example (fmt : Str) : FormatterGen.SegsOk (fun f => FormatterGen.refSegs (tokenize f)) fmt ∧
+    ((FormatterGen.refSegs (tokenize fmt)).ms = [] → (FormatterGen.refSegs (tokenize fmt)).tail = []) :=
+  ⟨FormatterGen.refSegs_ok fmt, FormatterGen.refSegs_tail fmt⟩
+
+/-- the locale hypotheses (`NamesOk`, distinct meridiem words) hold for each of the 27 shipped locales -/
+theorem shipped_locales_ok :
+    (Gen.FormatLocales.all.all fun L => !L.monthsWide.isEmpty && !L.monthsAbbr.isEmpty && !L.daysWide.isEmpty &&
+      !L.daysAbbr.isEmpty && !L.daysShort.isEmpty && L.pm != L.am) = true := by decide +kernel
+
+/-- `MatchOk` for `YYYY-MM-DD` on `2021-03-05`, and the instantiated tie: the generated `Formatter.parse` returns the date -/
+example : Gen.Formatter.parse (FormatterGen.refOps (fun f => FormatterGen.refSegs (tokenize f)) Gen.FormatLocales.loc_en
+      Gen.FormatLocales.find "en" ⟨2000, 1, 1⟩) 40000 "2021-03-05".toList "YYYY-MM-DD".toList
+      (FormatterGen.DV.ofNow ⟨2000, 1, 1⟩) none =
+    .ok (FormatterGen.ofResult ⟨2021, 3, 5, 0, 0, 0, 0, none⟩) := by
+  have hm : FormatterGen.MatchOk (fun f => FormatterGen.refSegs (tokenize f)) Gen.FormatLocales.loc_en Gen.FormatLocales.find "en"
+      ⟨2000, 1, 1⟩ "2021-03-05".toList (tokenize "YYYY-MM-DD".toList) := by
+    intro els ns hels hd
+    have e1 : elsOf Gen.FormatLocales.loc_en (pelsOf (tokenize "YYYY-MM-DD".toList)) =
+        .ok [fun s => lensD 1 4 s ++ lensD 4 4 s, litEl '-', fun s => lensD 1 2 s ++ lensD 2 2 s, litEl '-',
+             fun s => lensPad s ++ lensD 2 2 s] := by rfl
+    rw [e1] at hels
+    cases hels
+    have e2 : dfs (fun s => s.isEmpty) [fun s => lensD 1 4 s ++ lensD 4 4 s, litEl '-', fun s => lensD 1 2 s ++ lensD 2 2 s,
+        litEl '-', fun s => lensPad s ++ lensD 2 2 s] "2021-03-05".toList = some [4, 1, 2, 1, 2] := by decide +kernel
+    rw [e2] at hd
+    cases hd
+    have e3 : groupValues (pelsOf (tokenize "YYYY-MM-DD".toList)) [4, 1, 2, 1, 2] "2021-03-05".toList =
+        [("YYYY", "2021".toList), ("MM", "03".toList), ("DD", "05".toList)] := by decide +kernel
+    rw [e3]
+    constructor
+    · intro t v h
+      simp only [List.mem_cons, Prod.mk.injEq, List.not_mem_nil, or_false] at h
+      rcases h with ⟨rfl, _⟩ | ⟨rfl, _⟩ | ⟨rfl, _⟩ <;> exact ⟨fun h => absurd h (by decide), fun h => absurd h (by decide)⟩
+    · intro p f hp hf
+      have e4 : applyGroups Gen.FormatLocales.loc_en [("YYYY", "2021".toList), ("MM", "03".toList), ("DD", "05".toList)] {} =
+          .ok { year := some 2021, month := some 3, day := some 5 } := by rfl
+      rw [e4] at hp
+      cases hp
+      cases hf
+  rw [parse_source_eq_model _ Gen.FormatLocales.loc_en Gen.FormatLocales.find "en" ⟨2000, 1, 1⟩ 40000 (by decide) (by decide)
+    (by decide) (by unfold FormatterGen.NamesOk; decide) _ _ none rfl (FormatterGen.refSegs_ok _) (FormatterGen.refSegs_tail _) hm]
+  have : Fmt.parse Gen.FormatLocales.loc_en "2021-03-05".toList "YYYY-MM-DD".toList ⟨2000, 1, 1⟩ =
+      .ok ⟨2021, 3, 5, 0, 0, 0, 0, none⟩ := by decide +kernel
+  rw [this]; rfl
+
+/-- `_check_parsed`, instantiated on the state read from `"13 PM"` / `HH A` and on a quarter -/
+example : Gen.Formatter.check_parsed (FormatterGen.refOps (fun f => FormatterGen.refSegs (tokenize f)) Gen.FormatLocales.loc_en
+      Gen.FormatLocales.find "en" ⟨2000, 1, 1⟩) 40000 { hour := some 13, meridiem := some "pm".toList }
+      (FormatterGen.DV.ofNow ⟨2000, 1, 1⟩) = .error "ValueError" := by
+  rw [check_parsed_source_eq_model _ _ _ _ _ 40000 _ (by decide) (by decide) (by intro f h; cases h)]
+  have : checkParsed (FormatterGen.toParsed { hour := some 13, meridiem := some "pm".toList }) ⟨2000, 1, 1⟩ = .error "ValueError" := by
+    decide +kernel
+  rw [this]; rfl
 
 end Pendulum.Props.C08
